@@ -11,8 +11,8 @@ PROP = dict(
     theorems=[T + n for n in ['new_sub_grant_not_owner', 'new_sub_want_not_owner', 'new_sub_not_effective_owner', 'invite_want_not_owner', 'invite_default_not_owner', 'only_owner_offers_ownership', 'nonowner_cannot_request_ownership', 'transfer_flag_iff', 'transfer_strips_previous_owner', 'rejoin_not_owner', 'owner_cannot_give_up', 'owner_grant_protected', 'owner_cannot_unsubscribe', 'owner_cannot_be_evicted', 'nonowner_delete_is_unsubscribe', 'nonowner_cannot_edit_description']],
     streams=[world.world_stream("C06")],
     seeds=dict(quick=1, thorough=4),
-    rule="random histories of 30-120 requests per case (400 cases quick, 600 thorough per seed, every fourth a clause scenario with random parameters) over 4 users, 7 sessions (two per user, "
-         "one background, one anonymous, one root acting for others) and up to 3 group topics, a third of the cases with one injected "
+    rule="random histories of 30-120 requests per case (420 cases quick, 600 thorough per seed, every third a clause scenario with random parameters) over 4 users, 7 sessions (two per user, "
+         "one background, one anonymous, one root acting for others) up to 3 group topics and the peer-to-peer topics between the users, a third of the cases with one injected "
          "store failure per request, a third with crash points and restarts; non-trivial = every request line",
     assumptions=world.WORLD_ASSUMPTIONS,
     trusted=world.WORLD_TRUSTED,
